@@ -107,6 +107,8 @@ def run(ctx):
         inputs.append(("gen%d" % i, pdbgen.text(lines)))
     inputs.append(("ss-bridge", pdbgen.text(pdbgen.ss_fragment())))
     inputs.append(("nterm-asp", pdbgen.text(pdbgen.nterm_asp_fragment())))
+    nl, _ = pdbgen.multichain(rnd, nchains=1)
+    inputs.append(("nucleotide", pdbgen.text(pdbgen.add_nucleotide(nl))))
     # an ensemble whose members differ strongly (the second chain 40 A away in the second model): the average pKa values are
     # far from both members', and the reported folding profile must be linked to the reported charge curves all the same
     for n, t in pdbgen.test_files(["1HPX"]):
